@@ -84,6 +84,6 @@ def session(rng):
 
 def gen(rng, tier):
     ops = []
-    for _ in range(budget(tier, 30, 2000)):
+    for _ in range(budget(tier, 30, 800)):
         ops += session(rng)
     return ops
